@@ -54,6 +54,9 @@ class PWorld(TR.World):
                 g["RF_" + name] = self.rw.cls(name)
         g["FortranReaderBase"] = self.rw.cls("FortranReaderBase")
         g["CppDirective"] = self.rw.cls("CppDirective")
+        for name in ("Line", "MultiLine", "SyntaxErrorLine", "FortranStringReader", "FortranFileReader"):
+            if name in self.rw.classes and name not in g:
+                g[name] = self.rw.cls(name)
         g["readfortran"] = PE.Obj({n: self.rw.cls(n) for n in ("Comment", "Line", "CppDirective", "FortranReaderBase", "MultiLine")
                                    if n in self.rw.classes})
         for mod in (C99,):
